@@ -23,7 +23,8 @@ func refStart() error {
 	}
 	exe, _ := os.Executable()
 	path := filepath.Join(filepath.Dir(exe), "refhelper")
-	cmd := exec.Command(path)
+	// bounded address space: a reference interpreter that is led astray must die, not thrash
+	cmd := exec.Command("sh", "-c", "ulimit -v 6000000 2>/dev/null; exec \"$0\"", path)
 	in, err := cmd.StdinPipe()
 	if err != nil {
 		return err
